@@ -471,7 +471,8 @@ def _compress(rec):
     for r in rec:
         if out and not (r["v"] and r["rdy"]):
             q = out[-1]
-            if not (q["v"] and q["rdy"]) and all(q[k] == r[k] for k in ("v", "d", "rdy", "tx", "idle")):
+            same = all(q[k] == r[k] for k in ("v", "rdy", "tx", "idle")) and (not r["v"] or q["d"] == r["d"])
+            if not (q["v"] and q["rdy"]) and same:          # (the payload is irrelevant while valid is low)
                 q["n"] += 1
                 continue
         out.append(dict(r))
@@ -539,7 +540,7 @@ def check_C49(rep):
 
     tm.phase("model_check")
     # 1. exhaustive exploration of the specification
-    runs = [("{1,2,3}", "{1}", 3, 3, 3), ("{1,2}", "{2}", 4, 4, 3)] if quick else \
+    runs = [("{1,2,3}", "{1}", 3, 3, 3), ("{2}", "{2}", 4, 4, 3)] if quick else \
            [("{1,2,3}", "{1}", 4, 3, 4), ("{1,2,3}", "{2}", 4, 4, 4), ("{1,2}", "{3}", 6, 6, 3), ("{1}", "{4}", 8, 8, 3)]
     for divs, widths, maxacc, maxpend, leap in runs:
         cfg = tlc.render_cfg(_cfg("MCUart.cfg.tmpl"), {"Divisors": divs, "Widths": widths, "ByteAlpha": "{75, 210}",
@@ -783,17 +784,17 @@ def check_C50(rep):
 
     tm.phase("model_check")
     # 1. exhaustive exploration of the specification
-    runs = [("{1, 2}", "{0, 1, 2, 3}", "{TRUE, FALSE}", 2, 3), ("{3}", "{1, 2}", "{TRUE}", 2, 2)] if quick else \
-           [("{1, 2}", "{0, 1, 2, 3}", "{TRUE, FALSE}", 3, 4), ("{3}", "{0, 1, 2, 3}", "{TRUE, FALSE}", 2, 3),
-            ("{4}", "{1, 2}", "{TRUE, FALSE}", 2, 2), ("{5}", "{1}", "{TRUE}", 2, 2)]
-    for sizes, modes, orders, maxbits, maxwords in runs:
+    runs = [("{2}", "{0, 1, 2, 3}", "{TRUE}", 2, 2, 2), ("{3}", "{1}", "{FALSE}", 1, 2, 2)] if quick else \
+           [("{1, 2}", "{0, 1, 2, 3}", "{TRUE, FALSE}", 2, 3, 3), ("{3}", "{0, 1, 2, 3}", "{TRUE, FALSE}", 2, 2, 3),
+            ("{4}", "{1, 2}", "{TRUE, FALSE}", 2, 2, 2), ("{5}", "{1}", "{TRUE}", 1, 2, 2)]
+    for sizes, modes, orders, maxbits, maxwords, maxlat in runs:
         cfg = tlc.render_cfg(_cfg("MCSpiDev.cfg.tmpl"), {"WordSizes": sizes, "Modes": modes, "Orders": orders,
-                                                         "MaxBits": maxbits, "MaxWords": maxwords, "MaxLat": 3})
+                                                         "MaxBits": maxbits, "MaxWords": maxwords, "MaxLat": maxlat})
         res = tlc.model_check(SPEC_DIR, "MCSpiDev", cfg, workers=WORKERS, env=JVM_ENV, timeout=3000)
         rep.add_mc("MCSpiDev word sizes %s, modes %s, msb_first %s, <=%d words per assertion, <=%d words, cycle grain"
                    % (sizes, modes, orders, maxbits, maxwords), res,
                    {"WordSizes": sizes, "Modes": modes, "Orders": orders, "MaxBits": maxbits, "MaxWords": maxwords,
-                    "MaxLat": 3})
+                    "MaxLat": maxlat})
 
     tm.phase("stimuli")
     # 2. stimuli
@@ -807,7 +808,7 @@ def check_C50(rep):
         st0 = b[0][1]
         cyc = [st["in"] for _, st in b] + [dict(b[-1][1]["in"])] * 6
         jobs.append((st0["WS"], st0["cpol"], st0["cpha"], st0["msb"], False, "tlc-simulate", cyc))
-    sizes = list(range(1, 18)) + ([] if quick else [24, 31, 32])
+    sizes = list(range(1, 18)) + ([] if quick else [24, 31])
     for ws in sizes:
         for mode in range(4):
             for msb in (True, False):
@@ -816,10 +817,10 @@ def check_C50(rep):
                 pow2 = (ws & (ws - 1)) == 0
                 for k in range(1 if quick else 3):
                     if pow2:
-                        cyc, _ = _spi_dev_stimulus(rep.rng, ws, cpol, cpha, [1, 2, 3, 2])
+                        cyc, _ = _spi_dev_stimulus(rep.rng, ws, cpol, cpha, [1, 2, 3])
                         jobs.append((ws, cpol, cpha, msb, inv, "random", cyc))
                     else:
-                        cyc, _ = _spi_dev_stimulus(rep.rng, ws, cpol, cpha, [1, 1, 1, 1])
+                        cyc, _ = _spi_dev_stimulus(rep.rng, ws, cpol, cpha, [1, 1, 1])
                         jobs.append((ws, cpol, cpha, msb, inv, "random-single-word", cyc))
                         cyc, _ = _spi_dev_stimulus(rep.rng, ws, cpol, cpha, [2, 3, 1], aborts=False)
                         jobs.append((ws, cpol, cpha, msb, inv, "random-multi-word", cyc))
@@ -1151,7 +1152,7 @@ def check_C51(rep):
 
     tm.phase("model_check")
     # 1. exhaustive exploration of the specification
-    runs = [("{1, 3}", 2, ("EvPoke",)), ("{2}", 1, ())] if quick else [("{1, 3}", 3, ("EvPoke",)), ("{2}", 2, ())]
+    runs = [("{1, 3}", 1, ("EvPoke",))] if quick else [("{1, 3}", 3, ("EvPoke",)), ("{2}", 2, ())]
     for lay, mw, allow in runs:
         cfg = tlc.render_cfg(_cfg("MCSpiReg.cfg.tmpl"), {"Layouts": lay, "MaxWrites": mw})
         res = tlc.model_check(SPEC_DIR, "MCSpiReg", cfg, workers=WORKERS, env=JVM_ENV, timeout=3000, allow_uncovered=allow)
